@@ -794,8 +794,10 @@ class Formula:
     (as printed by `ast.unparse`, e.g. `T_new`, `sigma_k[solidMask]`, `self._stats['t_sol']`)
     inside `func` (`Class.method` or `function`); emitted as the Lean definition `name`."""
 
-    def __init__(self, name, target, occ=1):
+    def __init__(self, name, target, occ=1, ints=(), kind="expr"):
         self.name, self.target, self.occ = name, target, occ
+        self.ints = set(ints)     # names that hold Python ints (emitted as `Int` parameters)
+        self.kind = kind          # "expr" | "sortkey" (the `sorted(..., key=lambda …, reverse=…)` pattern)
 
 
 def _find_func(tree, qual, fname):
@@ -804,7 +806,11 @@ def _find_func(tree, qual, fname):
     node = None
     for i, part in enumerate(parts):
         kinds = (ast.FunctionDef,) if i == len(parts) - 1 else (ast.ClassDef,)
+        part, _, deco = part.partition("@")   # `holding@setter`: the def decorated with `@….setter`
         found = [n for n in body if isinstance(n, kinds) and n.name == part]
+        if deco:
+            found = [n for n in found if any(isinstance(d, ast.Attribute) and d.attr == deco
+                                             for d in n.decorator_list)]
         if len(found) != 1:
             raise TranslatorError(f"{fname}: expected exactly one definition of {'.'.join(parts[:i + 1])}, "
                                   f"found {len(found)}")
@@ -858,23 +864,127 @@ class FormulaTr:
     anything else              -> TranslatorError
     """
 
-    def __init__(self, src, fname, imports):
+    def __init__(self, src, fname, imports, ints=()):
         self.src, self.fname, self.imp = src, fname, imports
         self.params = {}   # key (python text) -> lean name
+        self.ptypes = {}   # key -> "α" | "Int"
+        self.ints = set(ints)
         self.needs_pi = False
+        self.arange = None  # (length code, type, translator of the length) of the one np.arange in the formula
 
     def bad(self, node, why):
         _bad(node, self.fname, why)
 
-    def param(self, key, base):
+    def param(self, key, base, ty="α"):
         if key in self.params:
+            if self.ptypes[key] != ty:
+                raise TranslatorError(f"{self.fname}: `{key}` used both as a float and as an int")
             return self.params[key]
         nm = lean_name(base)
         used = set(self.params.values())
         while nm in used:
             nm = nm + "'"
         self.params[key] = nm
+        self.ptypes[key] = ty
         return nm
+
+    def binders(self):
+        """`(a b : α) (n : Int) (c : α)` in parameter order"""
+        out, run, cur = [], [], None
+        for k, nm in self.params.items():
+            t = self.ptypes[k]
+            if t != cur and run:
+                out.append(f"({' '.join(run)} : {cur})")
+                run = []
+            cur = t
+            run.append(nm)
+        if run:
+            out.append(f"({' '.join(run)} : {cur})")
+        return (" " + " ".join(out)) if out else ""
+
+    # ---- typed layer: Int-valued and Bool-valued formulas ------------------------------------
+    def is_call(self, n, mod_attr=None, name=None, nargs=None):
+        if not isinstance(n, ast.Call) or n.keywords:
+            return False
+        if nargs is not None and len(n.args) != nargs:
+            return False
+        f = n.func
+        if mod_attr is not None:
+            return isinstance(f, ast.Attribute) and self.is_np(f.value) and f.attr == mod_attr
+        return isinstance(f, ast.Name) and f.id == name and name not in self.params
+
+    def texpr(self, n):
+        """(code, type) with type in "α" | "Int" | "intlit" | "Bool".
+        int(np.ceil(x))          -> Num.ceilInt x : Int
+        len(name)                -> the Int parameter len_name
+        names listed as ints     -> Int parameters;  int literals adapt to their context
+        + - * on Int             -> Int arithmetic
+        a >= b, a > b, a <= b, a < b on floats -> decide (b ≤ a) … : Bool   (elementwise for arrays)
+        np.argmax(c), np.any(c)  -> the Bool formula c of ONE element (first-true / exists stay in the hand model)
+        """
+        if self.is_call(n, name="int", nargs=1) and self.is_call(n.args[0], mod_attr="ceil", nargs=1):
+            return f"(Num.ceilInt {self.expr(n.args[0].args[0])})", "Int"
+        if self.is_call(n, name="len", nargs=1) and isinstance(n.args[0], ast.Name):
+            key = ast.unparse(n)
+            return self.param(key, "len_" + n.args[0].id, "Int"), "Int"
+        if isinstance(n, ast.Name) and n.id in self.ints:
+            return self.param(n.id, n.id, "Int"), "Int"
+        if isinstance(n, ast.Constant) and isinstance(n.value, int) and not isinstance(n.value, bool):
+            return str(n.value), "intlit"
+        if isinstance(n, ast.BinOp) and type(n.op) in BINOPS:
+            (lc, lt), (rc, rt) = self.texpr(n.left), self.texpr(n.right)
+            if "Int" in (lt, rt):
+                if not {lt, rt} <= {"Int", "intlit"}:
+                    self.bad(n, "Python int combined with a float: not translated")
+                return f"({lc} {BINOPS[type(n.op)]} {rc})", "Int"
+            if lt == rt == "intlit":
+                self.bad(n, "arithmetic on int literals only")
+            if lt in ("α", "intlit") and rt in ("α", "intlit"):
+                lc = self.int_lit(int(lc)) if lt == "intlit" else lc
+                rc = self.int_lit(int(rc)) if rt == "intlit" else rc
+                return f"({lc} {BINOPS[type(n.op)]} {rc})", "α"
+            self.bad(n, "operands of different kinds (float / int / bool)")
+        if isinstance(n, ast.Compare) and len(n.ops) == 1 and len(n.comparators) == 1:
+            a, b = self.expr(n.left), self.expr(n.comparators[0])
+            op = n.ops[0]
+            if isinstance(op, ast.GtE):
+                return f"(decide ({b} ≤ {a}))", "Bool"
+            if isinstance(op, ast.Gt):
+                return f"(decide ({b} < {a}))", "Bool"
+            if isinstance(op, ast.LtE):
+                return f"(decide ({a} ≤ {b}))", "Bool"
+            if isinstance(op, ast.Lt):
+                return f"(decide ({a} < {b}))", "Bool"
+            self.bad(n, "comparison not understood (only >= > <= < on floats)")
+        if self.is_call(n, mod_attr="argmax", nargs=1) or self.is_call(n, mod_attr="any", nargs=1):
+            c, t = self.texpr(n.args[0])
+            if t != "Bool":
+                self.bad(n, "np.argmax / np.any only of a comparison")
+            return c, "Bool"
+        return self.expr(n), "α"
+
+    def arange_elem(self, n):
+        """`np.arange(N)`, `np.arange(0, stop)`, `np.arange(0, stop, step)` inside a formula: the value of
+        element `arange_i`; the length goes to a companion definition `<name>_len`."""
+        if self.arange is not None:
+            self.bad(n, "more than one np.arange in a formula")
+        if n.keywords or not 1 <= len(n.args) <= 3:
+            self.bad(n, "np.arange form not understood")
+        if len(n.args) >= 2:
+            st = n.args[0]
+            if not (isinstance(st, ast.Constant) and st.value == 0 and not isinstance(st.value, bool)):
+                self.bad(n, "np.arange only with start 0")
+        ltr = FormulaTr(self.src, self.fname, self.imp, self.ints)
+        i = self.param("<arange index>", "arange_i")
+        if len(n.args) == 3:
+            stop, step = ltr.expr(n.args[1]), ltr.expr(n.args[2])
+            self.arange = (f"(Num.ceilInt ({stop} / {step}))", ltr)
+            return f"({i} * {self.expr(n.args[2])})"
+        c, t = ltr.texpr(n.args[-1])
+        if t not in ("Int", "intlit"):
+            self.bad(n, "np.arange(N): N must be an int (list it in `ints`)")
+        self.arange = (c, ltr)
+        return i
 
     @staticmethod
     def atom_name(text):
@@ -957,6 +1067,8 @@ class FormulaTr:
                 return f"({self.expr(n.left)} {BINOPS[type(n.op)]} {self.expr(n.right)})"
             if isinstance(n.op, ast.Div):
                 return f"({self.expr(n.left)} / {self.expr(n.right)})"
+            if isinstance(n.op, ast.Mod):
+                return f"(Num.pyMod {self.expr(n.left)} {self.expr(n.right)})"
             if isinstance(n.op, ast.Pow):
                 e = n.right
                 base = self.expr(n.left)
@@ -974,8 +1086,116 @@ class FormulaTr:
             if (isinstance(f, ast.Attribute) and self.is_np(f.value) and f.attr in NP_FUNCS and not n.keywords
                     and len(n.args) == 1):
                 return f"({NP_FUNCS[f.attr]} {self.expr(n.args[0])})"
-            self.bad(n, "call not understood (only np.exp/log/sqrt/tanh with one argument)")
+            if isinstance(f, ast.Attribute) and self.is_np(f.value) and f.attr == "arange":
+                return self.arange_elem(n)
+            self.bad(n, "call not understood (only np.exp/log/sqrt/tanh with one argument, np.arange)")
         self.bad(n, "expression not understood")
+
+
+def _sortkey_def(sp, value, st, src, fname):
+    """`sorted(xs, key=lambda h: (h["k1"], h.get("k2", d)), reverse=True|False)` -> the relation
+    "a may stay before b" of the (stable) sort on the key components: lexicographic >= (reverse) or <=."""
+    ok = (isinstance(value, ast.Call) and isinstance(value.func, ast.Name) and value.func.id == "sorted"
+          and len(value.args) == 1 and {k.arg for k in value.keywords} <= {"key", "reverse"})
+    kw = {k.arg: k.value for k in value.keywords} if ok else {}
+    lam = kw.get("key")
+    rev = kw.get("reverse", ast.Constant(value=False))
+    if not (ok and isinstance(lam, ast.Lambda) and len(lam.args.args) == 1 and isinstance(rev, ast.Constant)
+            and isinstance(rev.value, bool)):
+        _bad(st, fname, "sort pattern not understood (sorted(xs, key=lambda h: (...), reverse=<bool>))")
+    h = lam.args.args[0].arg
+    elts = lam.body.elts if isinstance(lam.body, ast.Tuple) else [lam.body]
+    comps = []
+    for e in elts:
+        if (isinstance(e, ast.Subscript) and isinstance(e.value, ast.Name) and e.value.id == h
+                and isinstance(e.slice, ast.Constant) and isinstance(e.slice.value, str)):
+            comps.append(e.slice.value)
+        elif (isinstance(e, ast.Call) and isinstance(e.func, ast.Attribute) and e.func.attr == "get"
+              and isinstance(e.func.value, ast.Name) and e.func.value.id == h and 1 <= len(e.args) <= 2
+              and isinstance(e.args[0], ast.Constant) and isinstance(e.args[0].value, str) and not e.keywords):
+            comps.append(e.args[0].value)
+        else:
+            _bad(e, fname, "sort key component not understood (h[\"k\"] or h.get(\"k\", default))")
+    names = [lean_name(c) for c in comps]
+    a = [f"{c}_a" for c in names]
+    b = [f"{c}_b" for c in names]
+    if not rev.value:
+        a, b = b, a      # ascending: a may precede b iff key(a) <= key(b)
+
+    def ge(i):
+        if i == len(names) - 1:
+            return f"(decide ({b[i]} ≤ {a[i]}))"
+        return f"(decide ({b[i]} < {a[i]}) || (Num.eqb {a[i]} {b[i]} && {ge(i + 1)}))"
+    params = [f"{c}_a" for c in names] + [f"{c}_b" for c in names]
+    text = " ".join(ast.unparse(st).split()).replace("-/", "- /")
+    return (f"/-- sort order of `{text}`:\n    entry `a` may stay before entry `b` iff key(a) "
+            f"{'>=' if rev.value else '<='} key(b), lexicographically on ({', '.join(comps)}) -/\n"
+            f"def {lean_name(sp.name)} ({' '.join(params)} : α) : Bool :=\n  {ge(0)}\n")
+
+
+def _formula_defs(src, fname, func, specs, imp, tree, seen_names):
+    fd = _find_func(tree, func, fname)
+    assigns = _assignments(fd.body, [])
+    defs = []
+    for sp in specs:
+        hits = [a for a in assigns if a[0] == sp.target]
+        if len(hits) < sp.occ:
+            raise TranslatorError(f"{fname}: {func} has {len(hits)} assignment(s) to `{sp.target}`, "
+                                  f"the tie needs #{sp.occ} (definition {sp.name})")
+        _, value, st, augop = hits[sp.occ - 1]
+        if sp.name in seen_names:
+            raise TranslatorError(f"duplicate formula name {sp.name}")
+        seen_names.add(sp.name)
+        if sp.kind == "sortkey":
+            defs.append(_sortkey_def(sp, value, st, src, fname))
+            continue
+        if augop is not None:
+            _bad(st, fname, "augmented assignment in a typed formula group: not translated")
+        text = " ".join(ast.unparse(st).split()).replace("-/", "- /")
+
+        def emit(name, tr, code, ty, what):
+            keys = ", ".join(f"`{k}`" for k in tr.params) or "none"
+            defs.append(f"/-- `{func}`, assignment #{sp.occ} to `{sp.target}`{what}:\n    `{text}`\n"
+                        f"    parameters: {keys} -/\ndef {lean_name(name)}{tr.binders()} : {ty} :=\n  {code}\n")
+        tr = FormulaTr(src, fname, imp, sp.ints)
+        # `[e] * k`: a list of k copies of e -> element and count
+        if (augop is None and isinstance(value, ast.BinOp) and isinstance(value.op, ast.Mult)
+                and isinstance(value.left, ast.List) and len(value.left.elts) == 1):
+            emit(sp.name + "_elem", tr, tr.expr(value.left.elts[0]), "α", " (element of the repeated list)")
+            tr2 = FormulaTr(src, fname, imp, sp.ints)
+            c, t = tr2.texpr(value.right)
+            if t not in ("Int", "intlit"):
+                _bad(value, fname, "list repetition count must be an int expression")
+            emit(sp.name + "_count", tr2, c, "Int", " (number of copies; negative = empty list)")
+            continue
+        c, t = tr.texpr(value)
+        if t == "intlit":
+            _bad(value, fname, "a bare int literal: say whether it is an int or a float")
+        emit(sp.name, tr, c, {"α": "α", "Int": "Int", "Bool": "Bool"}[t],
+             " (one element; `arange_i` is the index)" if tr.arange else
+             (" (the condition of ONE element)" if t == "Bool" else ""))
+        if tr.arange is not None:
+            lc, ltr = tr.arange
+            emit(sp.name + "_len", ltr, lc, "Int", " (length of the np.arange; negative = empty)")
+    return defs
+
+
+def translate_formula_groups(groups, namespace: str, title: str) -> str:
+    """several (source text, file name, function, specs) groups into ONE generated file; also the
+    Int- and Bool-valued node kinds (`int(np.ceil(·))`, `%`, comparisons, `np.arange`, `[e]*k`, sort keys)"""
+    defs, seen = [], set()
+    for (src, fname, func, specs) in groups:
+        tree = ast.parse(src)
+        defs += [f"/-! ### `{fname}`: `{func}` -/\n"] + _formula_defs(src, fname, func, specs, Imports(tree), tree, seen)
+    head = (
+        f"/-\n  GENERATED by harness/translate.py (formula extraction) - {title} - DO NOT EDIT.\n"
+        "  Regenerated on every run of the property checks that own the hand-written model;\n"
+        "  SnowProofs/Props/GenTie/*.lean proves each definition below equal to the corresponding\n"
+        "  formula of the hand model, so an edited formula in the source breaks a proof.\n"
+        "  Names are parameters (`Int` for Python ints); subscripts/attributes are opaque parameters.\n-/\n"
+        "import SnowModel.Num\nimport SnowModel.GenSupport\n\n"
+        f"namespace {namespace}\nvariable {{α : Type}} [Transc α]\n\n")
+    return head + "\n".join(defs) + f"\nend {namespace}\n"
 
 
 def translate_formulas(src: str, fname: str, func: str, specs, namespace: str, out_name: str) -> str:
